@@ -31,8 +31,11 @@ STUBS = SHIM_LIST + [
 ASSUMPTIONS = [
     "index element kinds, None-patterns, slice steps, rank (<=2) and block counts are concrete per instance",
     "chunk sizes >= 1, slice bounds and integer indices are unbounded integers",
-    "integer lists/arrays, boolean masks, dask-array indices, .vindex, .blocks, unknown chunk sizes: NOT decided "
-    "(their planners are NumPy-array code on data-dependent indices)",
+    "catalogue index programs (harness/catalog.py names containing '['): the index, and chains of two indices, applied to "
+    "sources/transposes/elemwise/concatenate/stack/arange through Array.__getitem__ and the optimizer, concrete integer "
+    "lists included, are decided end to end",
+    "boolean masks, dask-array indices, .blocks, unknown chunk sizes: NOT decided (their planners are NumPy-array code on "
+    "data-dependent indices); .vindex: bounds and point placement for the instances listed",
 ]
 
 
@@ -317,6 +320,26 @@ def inst_vindex_bounds(npoints, rank):
     return Instance(f"vindex_bounds[points={npoints},rank={rank}]", body, dict(points=npoints, rank=rank), unit="_vindex (bounds guard)")
 
 
+def _program_body(E, w, prog):
+    """end to end: `x[index]` (and chains of them) built through Array.__getitem__, optimized and materialized by the
+    repository's own pipeline, executed on symbolic blocks, against the NumPy meaning of the same indices"""
+    from symx.sarr import same_array
+
+    from . import catalog
+
+    m = catalog.stages(E, w, prog.node, {"materialized"})["materialized"]
+    whole, dsk, r = catalog.run_tree(E, m, prog.node.chunks, "materialized")
+    same_array(E, whole, prog.ref, label="indexed-values", skolem="pm")
+    same_array(E, catalog.computed(E, w, m), prog.ref, label="computed-values", skolem="pc")
+
+
+def _program_instances(tier):
+    from . import catalog
+
+    return catalog.make_instances(tier, "C12", _program_body, "Array.__getitem__ + slice fusion/pushdown + layers + block kernels",
+                                  select=lambda name: "[" in name and "rechunk" not in name and "sum(" not in name)
+
+
 def instances(tier):
     q = tier == "quick"
     out = []
@@ -363,6 +386,7 @@ def instances(tier):
         ]
     for b, s in two:
         out.append(inst_index(b, s))
+    out.extend(_program_instances(tier))
     out.append(inst_vindex_bounds(1, 1))
     out.append(inst_vindex_bounds(2, 1))
     out.append(inst_vindex_bounds(2, 2))
